@@ -78,6 +78,17 @@ fn check_date(y: i64, m: i64, d: i64) -> CaseResult {
         date.in_leap_year(),
         date.days_in_year()
     );
+    // era view and the with-builders that address a date by ordinal or era: inverses of the accessors
+    let (ey, era) = date.era_year();
+    let want_era = if y >= 1 { (y, jiff::civil::Era::CE) } else { (1 - y, jiff::civil::Era::BCE) };
+    ensure!((ey as i64, era) == want_era, "era-year", "{date}: era_year = ({ey}, {era:?}) want {want_era:?}");
+    ensure!(date.with().era_year(ey, era).build().ok() == Some(date), "with-era-year", "{date}: with().era_year({ey}, {era:?}) does not give the date back");
+    ensure!(date.with().day_of_year(doy as i16).build().ok() == Some(date), "with-day-of-year", "{date}: with().day_of_year({doy}) does not give the date back");
+    match want_noleap {
+        Some(n) => ensure!(date.with().day_of_year_no_leap(n as i16).build().ok() == Some(date), "with-day-of-year-no-leap", "{date}: with().day_of_year_no_leap({n}) = {:?}", date.with().day_of_year_no_leap(n as i16).build()),
+        None => {}
+    }
+    ensure!(date.with().year(y as i16).month(m as i8).day(d as i8).build().ok() == Some(date), "with-ymd", "{date}: with().year().month().day() does not give the date back");
     let f = date.first_of_month();
     let l = date.last_of_month();
     ensure!(
